@@ -173,6 +173,7 @@ func bfsSys(p uint32, items []uint64, v viol) *seqx.Sys {
 		Key:      func(i interface{}) string { return string(i.(*hll.HyperLogLog).GetBytes()) },
 		OpLabel:  func(op int) string { return fmt.Sprintf("Offer(%d)", items[op]) },
 		MaxDepth: len(items) + 2,
+		ModelKey: func(m interface{}) string { return fmt.Sprint(m.(*model).set) },
 	}
 }
 
